@@ -243,6 +243,13 @@ class ZMap(Abstract):
             raise Raised(KeyError('key not in map'), node)
         self.has = z3.Store(self.has, k, z3.BoolVal(False))
 
+    def sym_method(self, it, attr, args, kwargs, node):
+        if attr == 'items' and not args:
+            return ItemsView(self)
+        if attr == 'keys' and not args:
+            return KeysView(self)
+        raise Unsupported(f'dict method {attr}')
+
 
 class ZMapBag(Abstract):
     """dict K -> list (as bag of E).  Invariant kept by the operations: an absent key has an all-zero bag."""
@@ -449,7 +456,7 @@ class CoreInterp(sym.Interp):
         return super().to_str_term(v)
 
     def sym_method(self, obj, attr, args, kwargs, node):
-        if isinstance(obj, SV) and obj.kind == 'obj' and self.spec is not None:
+        if isinstance(obj, SV) and self.spec is not None:
             r = self.spec.sym_attr_call(self, obj, attr, args, node)
             if r is not NotImplemented:
                 return r
